@@ -90,7 +90,7 @@ def run(tier, seed):
     exe = core.build("rel")
     files = corpus.build(exe, seed, 10 if tier == "quick" else 60)
     files += _dec.tiny_files(exe, seed, 6 if tier == "quick" else 30)
-    n = 3000 if tier == "quick" else 80000
+    n = 1500 if tier == "quick" else 25000
     stats, fails = core.hyp_search(lambda: _dec.case_strategy(len(files)), make_hyp_eval(exe, files), n, seed)
     from props import _gen
     s2, f2 = _gen.run_c05(exe, tier, seed, eval_bytes)
@@ -99,11 +99,11 @@ def run(tier, seed):
     # in-process differential (parse/retrieve/decode/emit driven as expand.c drives them, against bzkit): catalogue
     # defects and structure-aware raw bytes under rapidcheck; a coverage-guided libFuzzer campaign in the thorough tier
     from props import _inproc
-    _inproc.add(stats, fails, "decode_defect", seed + 1, 8000 if tier == "quick" else 800000)
-    _inproc.add(stats, fails, "decode_raw", seed + 1, 60000 if tier == "quick" else 6000000)
-    _inproc.add(stats, fails, "decode_sym", seed + 1, 8000 if tier == "quick" else 800000)
+    _inproc.add(stats, fails, "decode_defect", seed + 1, 2500 if tier == "quick" else 60000)
+    _inproc.add(stats, fails, "decode_raw", seed + 1, 30000 if tier == "quick" else 1500000)
+    _inproc.add(stats, fails, "decode_sym", seed + 1, 4000 if tier == "quick" else 200000)
     if tier != "quick":
-        fz = _inproc.fuzz("decode_raw", seed, runs=20000000, max_total_time=900)
+        fz = _inproc.fuzz("decode_raw", seed, runs=20000000, max_total_time=400)
         stats.extra["libfuzzer-execs"] += fz["execs"]
         stats.extra["libfuzzer-corpus"] += fz.get("corpus", 0)
         fails += fz["crashes"]
